@@ -58,10 +58,23 @@ fn arr_t<T: Elem>(s: &str) -> Array<T> {
 /// (magnitudes to 1.8e308, denominators to 2^1074 and beyond) go through an exact big-integer division, correctly rounded as well.
 fn rat(s: &str) -> Option<f64> {
     match s.split_once('/') {
-        Some((n, d)) => match (n.parse::<i64>(), d.parse::<i64>()) { (Ok(n), Ok(d)) => Some(n as f64 / d as f64), _ => big::ratio(n, d) },
+        Some((ns, ds)) => match (ns.parse::<i64>(), ds.parse::<i64>()) {
+            (Ok(n), Ok(d)) => {
+                let v = n as f64 / d as f64;
+                // the big-integer division is validated against the hardware division on a seventh of the small-scope rationals of every
+                // run (both parts below 2^53, so both are the correctly rounded quotient); a disagreement makes the case a harness error
+                if (n ^ d) % 7 == 0 && n.unsigned_abs() < (1 << 53) && d > 0 && d < (1 << 53) {
+                    BIG_CHECKS.with(|c| c.set(c.get() + 1));
+                    if big::ratio(ns, ds).map(f64::to_bits) != Some(v.to_bits()) && !(n == 0) { return None }
+                }
+                Some(v)
+            }
+            _ => big::ratio(ns, ds),
+        },
         None => match s.parse::<i64>() { Ok(v) => Some(v as f64), Err(_) => big::ratio(s, "1") },
     }
 }
+thread_local! { static BIG_CHECKS: std::cell::Cell<u64> = const { std::cell::Cell::new(0) }; }
 /// both parts of every argument fit an i64 (the small scope); otherwise the big-integer path is in play
 fn small_args(a: &[&str]) -> bool { a.iter().all(|s| s.split('/').all(|p| p.parse::<i64>().is_ok())) }
 
@@ -1142,5 +1155,5 @@ fn nontrivial(op: &str, args: &[&str]) -> bool {
 
 fn main() {
     harness_main(Spec { prop: "C16", gen, exec, nontrivial, hang_secs: 30,
-        rule: "exhaustive per element type (i32 i64 u8 f64): fills over every shape rank<=3 sides 0..3 and every matrix 0..6x0..6 (thorough 0..8); eye/tri/tril/triu/diag over every matrix side pair x every offset -7..7 (+default; eye 0..7 since k is usize); stacks of matrices rank 3-4, ranks 0/1 (refused); vander lengths 0..6 x columns 0..6 x both orders; arange starts x stops x whole steps 1,2,3,5,12 (+ negative and fractional steps on f64); linspace/geomspace/logspace counts 0..60 (thorough 0..80) x endpoint none/true/false x 4-10 (start,stop) pairs x bases; rand over every shape rank<=3 sides 0..3 + all matrices (>200 shapes); array_* macros in every arity; robustness streams: value-class types i8v..u64v isizev usizev f32v f64v (tags mapped to |x|>2^53, MIN/MAX, u8 255, -0.0, +-inf, NaN, subnormals; bit-wise comparison, masked positions exactly +0) for tril/triu/tril+triu/diag/diagflat/diag.diag/full/full_like/zeros/ones/*_like/eye/identity/tri over matrices 0..4x0..4 (thorough 0..6) x offsets, stacks, ranks 0/1, zero_shapes, extreme offsets; big_shapes (to 70x70, 130x17, 300x2x2) and zero_shapes for every structural constructor on the plain and the value-class types, eye/tri/identity to side 130, vander on 1030 values, linspace to 4100 points, geomspace/logspace to 1030, arange to 4100 terms; then a seeded random stream (sides to 13, offsets to +-15, rank to 5, counts to 200). distinct = distinct case lines; non-trivial = result/operand with >= 2 elements (matrix with both sides >= 2, sequence with >= 2 points)" });
+        rule: "exhaustive per element type (i32 i64 u8 f64): fills over every shape rank<=3 sides 0..3 and every matrix 0..6x0..6 (thorough 0..8); eye/tri/tril/triu/diag over every matrix side pair x every offset -7..7 (+default; eye 0..7 since k is usize); stacks of matrices rank 3-4, ranks 0/1 (refused); vander lengths 0..6 x columns 0..6 x both orders; arange starts x stops x whole steps 1,2,3,5,12 (+ negative and fractional steps on f64); linspace/geomspace/logspace counts 0..60 (thorough 0..80) x endpoint none/true/false x 4-10 (start,stop) pairs x bases; rand over every shape rank<=3 sides 0..3 + all matrices (>200 shapes); array_* macros in every arity; robustness streams: value-class types i8v..u64v isizev usizev f32v f64v (tags mapped to |x|>2^53, MIN/MAX, u8 255, -0.0, +-inf, NaN, subnormals; bit-wise comparison, masked positions exactly +0) for tril/triu/tril+triu/diag/diagflat/diag.diag/full/full_like/zeros/ones/*_like/eye/identity/tri over matrices 0..4x0..4 (thorough 0..6) x offsets, stacks, ranks 0/1, zero_shapes, extreme offsets; big_shapes (to 70x70, 130x17, 300x2x2) and zero_shapes for every structural constructor on the plain and the value-class types, eye/tri/identity to side 130, vander on 1030 values, linspace to 4100 points, geomspace/logspace to 1030, arange to 4100 terms; part-2 streams: the same arguments through the element types i32 f64 u8 f64 f32 f64 i64 f32 ... back to back (linspace/geomspace/logspace/arange/eye/tri/identity/fills/rand/macros/tril/triu/diag/vander), refused-then-valid calls, collision_shape_pairs A,B,A, counts n / n+2^8 / n+2^16, A-B-A re-run of the previous case on every third case; exact decimal rationals beyond i64 (driver in Rat, executor by a correctly rounded big-integer division validated against the hardware division on a seventh of the small rationals): linspace/geomspace/logspace with bounds 3*2^60 ... f64::MAX/2, 10^39, 10^300 and 2^-52 ... 2^-1074, 10^-17 ... 10^-300 on f64 and f32 scales on f32; offsets c+2^8, c+2^16, c+2^32; every side 1..130 (thorough 300); counts 19..1009; ranks 5..8; huge_shapes (16 384 ... 140 000 elements) for fills / masks / diag / eye / tri / vander, linspace to 131 073 points, arange to 142 858 terms; then a seeded random stream (sides to 13, offsets to +-15, rank to 5, counts to 200). distinct = distinct case lines; non-trivial = result/operand with >= 2 elements (matrix with both sides >= 2, sequence with >= 2 points)" });
 }
